@@ -329,6 +329,8 @@ def main():
                 c['technique'] = o['technique']
             if 'text_append' in o:
                 c['text'] = c['text'].rstrip() + ' ' + o['text_append']
+            if 'note_remove' in o:
+                c['note'] = c['note'].replace(o['note_remove'], '')
             if 'note_append' in o:
                 c['note'] = c['note'].replace(' ' + TB, '').rstrip() + ' ' + o['note_append'] + ' ' + TB
             if 'technique_append' in o:
